@@ -160,11 +160,11 @@ type record struct {
 	Reread   []string `json:"reread"`
 	ApplyErr int      `json:"applyerr"`
 
-	src     []Op // the operators handed to the writer
-	got     []Op
-	suspect bool
-	pair    int64
-	errText string
+	src      []Op // the operators handed to the writer
+	got      []Op
+	suspect  bool
+	pair     int64
+	errText  string
 	realOnly bool
 }
 
